@@ -79,6 +79,7 @@ type Obligation struct {
 	Mark   int // ctx item count when issued
 	Props  []string
 	Quant  bool // involves quantifiers/spec functions
+	Blk    int  // root-function block the obligation belongs to (-1: none)
 	Res    SolveResult
 	Inputs []string
 	Note   string
@@ -115,6 +116,8 @@ type Unit struct {
 	noAssume  bool
 	specErrors []string
 	reqMark    int
+	usedLemmas map[string]bool
+	ancCache   map[int]map[int]bool
 }
 
 type inputSym struct {
@@ -138,6 +141,8 @@ type retInfo struct {
 	reach string
 	mem   *Mem
 	vals  []Val
+	pos   token.Pos
+	blk   int
 }
 
 type Frame struct {
@@ -334,7 +339,18 @@ func (u *Unit) allocZero(st *state, t types.Type) string {
 	sz := sizeOf(t)
 	p := u.alloc(st, intLit(int64(sz)))
 	u.store(st, p, t, "elem", u.zeroVal(t))
+	if isBytesBuffer(t) {
+		u.bufInit(st, p)
+	}
 	return p
+}
+
+// globalAssert records a fact that does not depend on the block being encoded.
+func (u *Unit) globalAssert(tag, body string) {
+	save := u.ctx.curBlk
+	u.ctx.curBlk = -1
+	u.ctx.assert(tag, body)
+	u.ctx.curBlk = save
 }
 
 // ---------- obligations ----------
@@ -349,11 +365,12 @@ func (u *Unit) oblige(f *Frame, st *state, kind, label string, pos token.Pos, co
 	if f != nil {
 		o.Fn = f.key
 	}
-	if pos.IsValid() {
+	if pos.IsValid() && u.prog != nil {
 		p := u.prog.Fset.Position(pos)
 		o.Pos = fmt.Sprintf("%s:%d", strings.TrimPrefix(p.Filename, u.prog.Repo+"/"), p.Line)
 	}
 	o.Mark = u.ctx.mark()
+	o.Blk = u.ctx.curBlk
 	u.obls = append(u.obls, o)
 	// later obligations may assume this one held (execution would have stopped)
 	u.ctx.assert("obl:"+name, implies(st.reach, cond))
@@ -545,7 +562,7 @@ func (u *Unit) strConst(t types.Type, s string) Val {
 			fs = append(fs, eq(sel(m0, add(a, intLit(int64(i)))), bvLitU(uint64(s[i]), 8)))
 		}
 	}
-	u.ctx.assert("strlit", and(fs...))
+	u.globalAssert("strlit", and(fs...))
 	return Val{T: t, S: []string{a, intLit(int64(len(s)))}, ConstS: &s, IsConst: true}
 }
 
@@ -559,7 +576,7 @@ func (u *Unit) globalAddr(g *ssa.Global) Val {
 	a := u.ctx.freshConst("glob:"+g.Name(), SInt)
 	u.globals[key] = a
 	elem := g.Type().(*types.Pointer).Elem()
-	u.ctx.assert("global", and(le("1", a), le(add(a, intLit(int64(safeSizeOf(elem)))), u.entryMem.alloc)))
+	u.globalAssert("global", and(le("1", a), le(add(a, intLit(int64(safeSizeOf(elem)))), u.entryMem.alloc)))
 	return Val{T: g.Type(), S: []string{a}, Hint: "field:global." + shortPkg(g.Pkg.Pkg.Path()) + "." + g.Name()}
 }
 
@@ -785,6 +802,9 @@ func (f *Frame) run(st *state) (ret *state, results []Val) {
 
 func (f *Frame) block(b *ssa.BasicBlock, entry *state) {
 	u := f.u
+	if f == u.rootFrame {
+		u.ctx.curBlk = b.Index
+	}
 	var st *state
 	li := f.loops[b]
 	if b == f.fn.Blocks[0] {
